@@ -76,6 +76,10 @@ class Event:
     index: int = 0
 
 
+class StackMappingSpun(Exception):
+    """Marker: a stack mapping was cut short by the harness (not an exception of the library)."""
+
+
 class Session:
     """A growing pool of genotypes of one representation; every API call is an Event sent to `observe`."""
 
@@ -98,7 +102,21 @@ class Session:
         ev = Event(op, self.kind, list(inputs))
         ev.token = token  # type: ignore[attr-defined]
         try:
-            res = fn()
+            if self.kind == "stack" and op == "map":
+                # the stack mapper only stops on failures or success: a gene cycle that keeps succeeding without ever
+                # completing the start symbol spins forever. That hazard is no listed property: bound it and move on.
+                if getattr(self, "spun", 0) >= 2:  # this grammar/genome family spins: stop mapping in this session
+                    ev.exc = StackMappingSpun()
+                    return ev
+                try:
+                    with core.time_limit(1.0):
+                        res = fn()
+                except core.CaseTimeout:
+                    self.spun = getattr(self, "spun", 0) + 1
+                    ev.exc = StackMappingSpun()
+                    return ev
+            else:
+                res = fn()
             ev.outputs = list(res) if isinstance(res, tuple) and op == "crossover" else [res]
         except core.CaseTimeout:
             raise
